@@ -1641,7 +1641,16 @@ func genC16(g *G, sc *Scenario, tier string, seed uint64) {
 			}
 		case x < 0.18:
 			sc.Ops = append(sc.Ops, Op{K: "advance", N: g.PickInt([]int{60, 600, 1000})})
-		case x < 0.22:
+		case x < 0.20:
+			sc.Ops = append(sc.Ops, Op{K: "crossAssertion", N: g.Intn(2)})
+		case x < 0.235:
+			// an entry is turned into a deny (or back) by re-posting the same list; often the hub restarts before any
+			// other ACL is written
+			sc.Ops = append(sc.Ops, Op{K: "aclflip", DS: g.Pick([]string{"client1", "client1", "client2"}), N: g.Intn(3)})
+			if g.P(0.6) {
+				sc.Ops = append(sc.Ops, Op{K: "restart"})
+			}
+		case x < 0.27:
 			sc.Ops = append(sc.Ops, Op{K: "list"})
 		default:
 			sc.Ops = append(sc.Ops, Op{K: "req", N: g.Intn(1000), S: g.Pick(kinds), DS: g.Pick([]string{"a", "a", "ab", "b"})})
